@@ -253,6 +253,34 @@ fn dump_reader<R: Read + Seek>(r: &mut Mp4Reader<R>, c: &Value, out: &mut Value)
         CALL_MAX_ALLOC.fetch_max(PEAK.load(Ordering::Relaxed).saturating_sub(live0), Ordering::Relaxed);
         results.push(json!([kind, tid, sid, v]));
     }
+    // revisit: the same offset / sample calls again on the SAME reader, in reverse order and in a scrambled order; every answer must be the one
+    // given the first time (a lookup that keeps a cursor or a cached position between calls shows up here).  Not done under fault injection or
+    // transfer splitting, where the k-th stream call legitimately decides the answer.
+    let revisit = c.get("revisit").and_then(|x| x.as_bool()).unwrap_or(false)
+        && c.get("fail").is_none() && c.get("chunk").is_none() && c.get("intr").is_none();
+    if revisit {
+        let idx: Vec<usize> = (0..calls.len()).filter(|i| calls[*i].0 != "cnt").collect();
+        let mut order: Vec<usize> = idx.iter().rev().copied().collect();
+        let mut x: u64 = 0x9e3779b97f4a7c15 ^ (calls.len() as u64);
+        let mut scr = idx.clone();
+        for i in (1..scr.len()).rev() {
+            x = x.wrapping_mul(6364136223846793005).wrapping_add(1442695040888963407);
+            scr.swap(i, ((x >> 33) as usize) % (i + 1));
+        }
+        order.extend(scr);
+        let mut dep = vec![];
+        for i in order {
+            let (kind, tid, sid) = &calls[i];
+            let v = match kind.as_str() {
+                "off" => res_str(guard(|| r.sample_offset(*tid, *sid))),
+                _ => sample_json(&guard(|| r.read_sample(*tid, *sid)), want_bytes),
+            };
+            if v != results[i][3] && dep.len() < 5 {
+                dep.push(json!({"call": [kind, tid, sid], "first": results[i][3], "later": v}));
+            }
+        }
+        out["order_dep"] = json!(dep);
+    }
     out["tracks"] = json!(tracks);
     out["calls"] = json!(results);
     // metadata
